@@ -17,7 +17,7 @@
  * exactly the nodes the harness linked; a failed check is printed into the dump
  * as "!what" (the model never prints that, so it is a disagreement and the
  * oracle rejects it).
- * Each case runs in a forked child (a corrupted tree may crash or loop). */
+ * The cases run in a forked worker (a corrupted tree may crash or loop), see main. */
 #include "parsec/parsec_config.h"
 #include "parsec/class/parsec_rbtree.h"
 #include "parsec/constants.h"
@@ -35,6 +35,7 @@ typedef struct hnode_s {
     int id;
     int linked;
     int seen;
+    int used;
 } hnode_t;
 
 static hnode_t pool[MAXID];
@@ -45,13 +46,13 @@ static int nlinked;
 #define L(n) ((parsec_rbtree_node_t *)(n)->super.list_prev)
 #define R(n) ((parsec_rbtree_node_t *)(n)->super.list_next)
 
-static int visited, corrupt;
+static int visited, corrupt, stamp;
 static void dump_rec(parsec_rbtree_node_t *n, int depth) {
     if (n == tree.nil) { fputc('.', out); return; }
     hnode_t *h = (hnode_t *)n;
     if (h < pool || h >= pool + MAXID || depth > 200 || visited > MAXID) { fputs("!wild", out); corrupt = 1; return; }
-    if (h->seen) { fprintf(out, "!again%d", h->id); corrupt = 1; return; }
-    h->seen = 1; visited++;
+    if (h->seen == stamp) { fprintf(out, "!again%d", h->id); corrupt = 1; return; }
+    h->seen = stamp; visited++;
     fprintf(out, "(%c %d:%d", n->color == PARSEC_RBTREE_RED ? 'R' : (n->color == PARSEC_RBTREE_BLACK ? 'B' : '?'), h->id, h->key);
     if (!h->linked) fputs("!unlinked", out);
     if (L(n) != tree.nil && L(n)->parent != n) fputs("!lparent", out);
@@ -65,8 +66,7 @@ static char *prev_dump;
 static void dump(void) {
     FILE *real = out; char *buf = NULL; size_t len = 0;
     out = open_memstream(&buf, &len);
-    for (int i = 0; i < MAXID; i++) pool[i].seen = 0;
-    visited = 0; corrupt = 0;
+    stamp++; visited = 0; corrupt = 0;
     if (tree.nil != &tree.nil_element) fputs("!nilmoved", out);
     if (tree.nil->color != PARSEC_RBTREE_BLACK) fputs("!nilred", out);
     if (tree.root != tree.nil && tree.root->parent != tree.nil) fputs("!rootparent", out);
@@ -93,10 +93,10 @@ static void pnode(parsec_rbtree_node_t *n) {
 static void run_case(char *line) {
     char *save = NULL; int first = 1;
     parsec_rbtree_init(&tree, offsetof(hnode_t, key));
-    nlinked = 0; prev_dump = strdup(".");
-    for (int i = 0; i < MAXID; i++) {
-        PARSEC_OBJ_CONSTRUCT(&pool[i].super, parsec_rbtree_node_t);
-        pool[i].id = i; pool[i].linked = 0; pool[i].key = 0;
+    nlinked = 0; free(prev_dump); prev_dump = strdup(".");
+    for (int i = 0; i < MAXID; i++) {       /* fresh nodes for every case */
+        if (pool[i].used) PARSEC_OBJ_DESTRUCT(&pool[i].super);
+        pool[i].id = i; pool[i].linked = 0; pool[i].key = 0; pool[i].used = 0; pool[i].seen = 0;
     }
     for (char *tok = strtok_r(line, ",", &save); tok; tok = strtok_r(NULL, ",", &save)) {
         while (*tok == ' ') tok++;
@@ -106,7 +106,8 @@ static void run_case(char *line) {
         if (o == 'i' && k == 2 && v[0] >= 0 && v[0] < MAXID) {
             hnode_t *h = &pool[v[0]];
             if (h->linked) fputs("skip", out);
-            else { h->key = (int)v[1]; h->linked = 1; nlinked++; parsec_rbtree_insert(&tree, &h->super); fputs("ok", out); }
+            else { if (!h->used) { PARSEC_OBJ_CONSTRUCT(&h->super, parsec_rbtree_node_t); h->used = 1; }
+                   h->key = (int)v[1]; h->linked = 1; nlinked++; parsec_rbtree_insert(&tree, &h->super); fputs("ok", out); }
         } else if (o == 'r' && k == 1 && v[0] >= 0 && v[0] < MAXID) {
             hnode_t *h = &pool[v[0]];
             if (!h->linked) fputs("skip", out);
@@ -137,26 +138,46 @@ static void run_case(char *line) {
         if (corrupt) break;      /* do not keep operating on a structure that is no longer a tree */
     }
     if (first) fputs("<empty>", out);
+    parsec_rbtree_fini(&tree);
 }
 
+/* The cases run in a forked worker that reports its progress through a shared counter; when the
+ * worker dies (a corrupted tree may crash or loop: alarm), the parent prints a crash line for the
+ * case in progress and starts a new worker at the next case. */
+#include <sys/mman.h>
 int main(int argc, char **argv) {
     FILE *f = hc_open(argc, argv); char *l;
+    char **cases = NULL; size_t ncases = 0, cap = 0;
     while ((l = hc_next(f))) {
+        if (ncases == cap) { cap = cap ? 2 * cap : 1024; cases = realloc(cases, cap * sizeof(char *)); }
+        cases[ncases++] = strdup(l);
+    }
+    volatile size_t *done = mmap(NULL, sizeof(size_t), PROT_READ | PROT_WRITE, MAP_SHARED | MAP_ANONYMOUS, -1, 0);
+    if (done == MAP_FAILED) { perror("mmap"); return 2; }
+    *done = 0;
+    while (*done < ncases) {
         fflush(stdout);
         pid_t pid = fork();
         if (pid == 0) {
-            char *buf = NULL; size_t len = 0;
-            alarm(20);
-            out = open_memstream(&buf, &len);
-            run_case(l);
-            fclose(out);
-            fwrite(buf, 1, len, stdout); fputc('\n', stdout); fflush(stdout);
+            for (size_t i = *done; i < ncases; i++) {
+                char *buf = NULL; size_t len = 0;
+                alarm(20);
+                out = open_memstream(&buf, &len);
+                run_case(cases[i]);
+                fclose(out);
+                fwrite(buf, 1, len, stdout); fputc('\n', stdout); fflush(stdout);
+                free(buf);
+                *done = i + 1;
+            }
             _exit(0);
         }
         int st = 0;
-        if (pid < 0 || waitpid(pid, &st, 0) < 0) { printf("<fork failed>\n"); continue; }
-        if (WIFSIGNALED(st)) printf("<crash signal %d>\n", WTERMSIG(st));
-        else if (!WIFEXITED(st) || WEXITSTATUS(st) != 0) printf("<crash exit %d>\n", WEXITSTATUS(st));
+        if (pid < 0 || waitpid(pid, &st, 0) < 0) { printf("<fork failed>\n"); return 2; }
+        if (*done < ncases) {
+            if (WIFSIGNALED(st)) printf("<crash signal %d>\n", WTERMSIG(st));
+            else printf("<crash exit %d>\n", WIFEXITED(st) ? WEXITSTATUS(st) : -1);
+            *done = *done + 1;
+        }
     }
     return 0;
 }
